@@ -5,7 +5,17 @@
 // https://opensource.org/licenses/MIT.
 
 fn main() {
-    let args = std::env::args().collect::<Vec<String>>();
+    // std::env::args() panics on arguments that are not valid Unicode
+    let args = match std::env::args_os()
+        .map(std::ffi::OsString::into_string)
+        .collect::<Result<Vec<String>, _>>()
+    {
+        Ok(args) => args,
+        Err(arg) => {
+            eprintln!("xargs: argument is not valid UTF-8: {}", arg.to_string_lossy());
+            std::process::exit(1);
+        }
+    };
     std::process::exit(findutils::xargs::xargs_main(
         &args
             .iter()
